@@ -11,6 +11,7 @@ mod confine;
 mod csweep;
 mod docsweep;
 mod drops;
+mod flatfmt;
 mod flavor;
 mod gsweep;
 mod lockstep;
